@@ -62,8 +62,9 @@ EXPECT = {
     "dup_base_bit": ["parse.view05.libs.cells.cables", "parse.file_view05.libs.cells.cables"],
     "scalar_like_bus": ["parse.view05.libs.cells.cables", "parse.raises.value"],
     "shared_stem": ["parse.view05.libs.cells.cables", "parse.raises.value"],
-    "inst_no_viewref": ["parse.result_not_well_formed.instance_without_reference", "parse.raises.runtime"],
-    "viewref_no_cellref": ["parse.result_not_well_formed.instance_reference_not_before_its_cell", "parse.raises.runtime"],
+    "inst_no_viewref": ["parse.result_not_well_formed.instance_without_reference", "parse.accepted_text_that_must_be_rejected"],
+    "viewref_no_cellref": ["parse.result_not_well_formed.instance_reference_not_before_its_cell",
+                           "parse.accepted_text_that_must_be_rejected"],
     "odd_char": ["reparse.raises.runtime", "history.reparse.raises.runtime"],
     "backslash_bus": ["roundtrip.view03.libraries.nets", "roundtrip.view03.libraries.#"],
     "old_name": ["reparse.raises.runtime", "history.reparse.raises.runtime"],
@@ -347,6 +348,12 @@ def struct_problems(c):
     return pr
 
 
+# rejected-input classes: the text of these triggers does not describe a design (an instance without
+# viewRef has no reference; a viewRef without cellRef names the cell being read) and must be REJECTED, by
+# the implementation and by the model alike (compared on "rejected")
+REJECT_TRIGS = {"inst_no_viewref", "viewref_no_cellref"}
+
+
 def c05_eval_text(work, drv, text, expect=None, trigger=None, corr_only=False):
     """Run one text through implementation and model.
     Returns dict(corr=None|(impl, model), spec=None|(signature, detail), impl_canon, tags)"""
@@ -373,6 +380,8 @@ def c05_eval_text(work, drv, text, expect=None, trigger=None, corr_only=False):
             res["spec"] = ("parse.result_not_well_formed." + wf[0].replace(" ", "_"), "; ".join(wf[:5]))
         elif nc:
             res["spec"] = ("parse.name_inconsistent", str(nc[:3]))
+        elif trigger in REJECT_TRIGS:
+            res["spec"] = ("parse.accepted_text_that_must_be_rejected." + trigger, "the reader accepted a text of the rejected-input class " + trigger)
         elif expect is not None:
             d = G.first_diff(G.view05(c), expect)
             if d:
@@ -380,7 +389,9 @@ def c05_eval_text(work, drv, text, expect=None, trigger=None, corr_only=False):
     else:
         if m is not None and "ok" in m:
             res["corr"] = ({"raised": r[1], "msg": r[2]}, "accepted")
-        if expect is not None:
+        if trigger in REJECT_TRIGS:
+            res["tags"].append("rejected-as-required")
+        elif expect is not None:
             res["spec"] = ("parse.raises." + r[1], r[2])
     if res["spec"]:
         res["spec"] = classify(trigger, res["spec"][0], res["spec"][1])
